@@ -575,13 +575,192 @@ def gen_scalar(repo, outdir, notes):
     return t
 
 
+# ====================================================================== structural tables
+# Tables of *source shapes* (normalised by ast.unparse) for the code the hand-written model
+# Model/Trace.v, Model/Compile.v mirrors.  Proofs/TableObligations.v proves that they equal the
+# tables the model was written against; a change in the code breaks that obligation.
+
+def strip_self(node):
+    txt = ast.unparse(node).replace("\n", " ; ")
+    return txt.replace("self.", "")
+
+
+def find_class_node(mod, name):
+    for c in mod.classes:
+        if c.name == name:
+            return c
+    return None
+
+
+def method(c, name):
+    for f in methods_of(c):
+        if f.name == name:
+            return f
+    return None
+
+
+def body_nodoc(fn):
+    return [s for s in fn.body if not is_docstring(s)]
+
+
+def gen_ast_tables(repo, outdir, notes):
+    global CUR_FILE
+    au = Module(repo, "nada_dsl/ast_util.py")
+    CUR_FILE = au.rel
+    bases = {c.name: base_names(c) for c in au.classes}
+
+    def inherits_ast(name):
+        return name == "ASTOperation" or any(inherits_ast(b) for b in bases.get(name, []))
+    child_fields, to_mirs = [], []
+    for c in au.classes:
+        if not inherits_ast(c.name) or c.name == "ASTOperation":
+            continue
+        # child_operations (own or inherited through the single base chain)
+        cur, co = c, None
+        while cur is not None and co is None:
+            co = method(cur, "child_operations")
+            if co is None:
+                b = [x for x in bases[cur.name] if x in bases]
+                cur = find_class_node(au, b[0]) if b else None
+        if co is None:
+            fail(c, f"{c.name}: child_operations not found")
+        body = body_nodoc(co)
+        if len(body) != 1 or not isinstance(body[0], ast.Return):
+            fail(co, f"{c.name}.child_operations is not a single return")
+        child_fields.append(f"({cstr(c.name)}, {cstr(strip_self(body[0].value))})")
+        tm = method(c, "to_mir")
+        if tm is None:
+            fail(c, f"{c.name}: to_mir not defined")
+        body = body_nodoc(tm)
+        ret = body[-1]
+        if not isinstance(ret, ast.Return) or not isinstance(ret.value, ast.Dict):
+            fail(tm, f"{c.name}.to_mir does not end in a dict display")
+        d = ret.value
+        if len(d.keys) == 1 and isinstance(d.values[0], ast.Dict):
+            variant = strip_self(d.keys[0])
+            inner = d.values[0]
+        else:
+            variant = "<flat>"
+            inner = d
+        pairs = [f"({cstr(strip_self(k))}, {cstr(strip_self(v))})" for k, v in zip(inner.keys, inner.values)]
+        pre = [cstr(strip_self(s0)) for s0 in body[:-1]]
+        to_mirs.append(f"({cstr(c.name)}, ({cstr(variant)}, {clist(pairs)}, {clist(pre)}))")
+    # literal name construction
+    lit = find_class_node(au, "LiteralASTOperation")
+    lit_init = [cstr(strip_self(s0)) for s0 in body_nodoc(method(lit, "__init__"))]
+    nid = next(f for f in au.funcs if f.name == "next_operation_id")
+    next_id = [cstr(ast.unparse(s0)) for s0 in body_nodoc(nid)]
+
+    # store_in_ast maps and allocation sites
+    stores, allocs = [], []
+    for rel in ("nada_dsl/operations.py", "nada_dsl/nada_types/collections.py", "nada_dsl/nada_types/function.py",
+                "nada_dsl/program_io.py"):
+        m = Module(repo, rel)
+        CUR_FILE = rel
+        for c in m.classes:
+            st = method(c, "store_in_ast")
+            if st is not None:
+                body = body_nodoc(st)
+                if len(body) != 1 or not isinstance(body[0], ast.Assign):
+                    fail(st, f"{c.name}.store_in_ast is not a single assignment")
+                tgt, val = body[0].targets[0], body[0].value
+                if not (isinstance(val, ast.Call) and isinstance(val.func, ast.Name) and not val.args):
+                    fail(st, f"{c.name}.store_in_ast does not build an AST record by keywords")
+                kws = [f"({cstr(k.arg)}, {cstr(strip_self(k.value))})" for k in val.keywords]
+                stores.append(f"({cstr(c.name)}, ({cstr(strip_self(tgt))}, {cstr(val.func.id)}, {clist(kws)}))")
+            init = method(c, "__init__")
+            if init is not None:
+                src = [strip_self(s0) for s0 in body_nodoc(init)]
+                if any("next_operation_id()" in x for x in src):
+                    allocs.append(f"({cstr(c.name)}, {clist([cstr(x) for x in src])})")
+    text = HEADER.format(src="ast_util.py, operations.py, collections.py, function.py, program_io.py (structure tables)")
+    text += "Definition ast_child_fields : list (string * string) :=\n  " + clist(["\n   " + x for x in child_fields]) + ".\n\n"
+    text += ("Definition ast_to_mir : list (string * (string * list (string * string) * list string)) :=\n  "
+             + clist(["\n   " + x for x in to_mirs]) + ".\n\n")
+    text += "Definition literal_init : list string :=\n  " + clist(["\n   " + x for x in lit_init]) + ".\n\n"
+    text += "Definition next_operation_id_body : list string := " + clist(next_id) + ".\n\n"
+    text += ("Definition store_maps : list (string * (string * string * list (string * string))) :=\n  "
+             + clist(["\n   " + x for x in stores]) + ".\n\n")
+    text += "Definition alloc_inits : list (string * list string) :=\n  " + clist(["\n   " + x for x in allocs]) + ".\n"
+    write_if_changed(os.path.join(outdir, "GenAst.v"), text)
+
+
+def stmts_src(body):
+    return clist(["\n   " + cstr(ast.unparse(s0).replace("\n", " ; ")) for s0 in body if not is_docstring(s0)])
+
+
+def gen_frontend_tables(repo, outdir, notes):
+    global CUR_FILE
+    cf = Module(repo, "nada_dsl/compiler_frontend.py")
+    CUR_FILE = cf.rel
+    fn = {f.name: f for f in cf.funcs}
+    text = HEADER.format(src="compiler_frontend.py, nada_types/function.py, nada_types/collections.py (structure tables)")
+    main = fn["nada_dsl_to_nada_mir"]
+    cleared = []
+    for s0 in body_nodoc(main):
+        if (isinstance(s0, ast.Expr) and isinstance(s0.value, ast.Call) and isinstance(s0.value.func, ast.Attribute)
+                and s0.value.func.attr == "clear" and isinstance(s0.value.func.value, ast.Name)):
+            cleared.append(s0.value.func.value.id)
+    text += "Definition cleared : list string := " + clist([cstr(x) for x in cleared]) + ".\n\n"
+    for name in ("nada_dsl_to_nada_mir", "to_party_list", "to_input_list", "to_literal_list", "to_mir_function_list",
+                 "add_input_to_map", "traverse_and_process_operations", "process_operation", "nada_compile"):
+        if name not in fn:
+            raise ExtractError(cf.rel, 0, f"function {name} not found")
+        text += f"Definition src_{name} : list string :=\n  {stmts_src(fn[name].body)}.\n\n"
+    # module-level tables
+    glob = []
+    for s0 in cf.tree.body:
+        if isinstance(s0, (ast.Assign, ast.AnnAssign)):
+            glob.append(cstr(ast.unparse(s0)))
+    text += "Definition frontend_globals : list string := " + clist(glob) + ".\n\n"
+
+    fm = Module(repo, "nada_dsl/nada_types/function.py")
+    CUR_FILE = fm.rel
+    for cname, mname in (("NadaFunctionArg", "__init__"), ("NadaFunction", "__init__"), ("NadaFunction", "__call__"),
+                         ("NadaFunctionCall", "__init__")):
+        c = find_class_node(fm, cname)
+        text += f"Definition src_{cname}_{mname.strip('_')} : list string :=\n  {stmts_src(method(c, mname).body)}.\n\n"
+    ffn = {f.name: f for f in fm.funcs}
+    for name in ("contained_types", "nada_fn"):
+        text += f"Definition src_{name} : list string :=\n  {stmts_src(ffn[name].body)}.\n\n"
+
+    cm = Module(repo, "nada_dsl/nada_types/collections.py")
+    CUR_FILE = cm.rel
+    cfn = {f.name: f for f in cm.funcs}
+    for name in ("is_primitive_integer", "_generate_accessor", "unzip", "get_inner_type"):
+        text += f"Definition src_{name.strip('_')} : list string :=\n  {stmts_src(cfn[name].body)}.\n\n"
+    for cname, ms in (("Collection", ["to_mir", "retrieve_inner_type"]),
+                      ("Array", ["__init__", "__iter__", "map", "reduce", "zip", "inner_product", "new", "init_as_template_type"]),
+                      ("Tuple", ["__init__", "new"]), ("NTuple", ["__init__", "new", "__getitem__"]),
+                      ("Object", ["__init__", "new", "__getattr__"]), ("ArrayType", ["to_mir"]), ("TupleType", ["to_mir"])):
+        c = find_class_node(cm, cname)
+        for mname in ms:
+            mm = method(c, mname)
+            if mm is None:
+                raise ExtractError(cm.rel, c.lineno, f"{cname}.{mname} not found")
+            text += f"Definition src_{cname}_{mname.strip('_')} : list string :=\n  {stmts_src(mm.body)}.\n\n"
+    pm = Module(repo, "nada_dsl/program_io.py")
+    CUR_FILE = pm.rel
+    for cname in ("Input", "Literal", "Output"):
+        c = find_class_node(pm, cname)
+        text += f"Definition src_{cname}_init : list string :=\n  {stmts_src(method(c, '__init__').body)}.\n\n"
+    nm = Module(repo, "nada_dsl/nada_types/__init__.py")
+    CUR_FILE = nm.rel
+    c = find_class_node(nm, "NadaType")
+    for mname in ("__init__", "to_mir", "class_to_mir", "__bool__"):
+        text += f"Definition src_NadaType_{mname.strip('_')} : list string :=\n  {stmts_src(method(c, mname).body)}.\n\n"
+    write_if_changed(os.path.join(outdir, "GenFrontend.v"), text)
+
+
 def main():
     repo, outdir = sys.argv[1], sys.argv[2]
     os.makedirs(outdir, exist_ok=True)
     notes = []
     try:
         gen_scalar(repo, outdir, notes)
-    except ExtractError as e:
+        gen_ast_tables(repo, outdir, notes)
+        gen_frontend_tables(repo, outdir, notes)
+    except (ExtractError, KeyError, StopIteration, AttributeError) as e:
         print(f"EXTRACT-ERROR {e}")
         sys.exit(2)
     for n in notes:
